@@ -3,6 +3,7 @@ import ewho
 import ereduce
 import ecanon
 import eunits
+import eraw
 
 LEVEL = "E-UNITS"
 CRATES = ("oxidd_core", "oxidd_manager_index", "oxidd_manager_pointer", "oxidd_reorder", "oxidd_rules_bdd",
@@ -31,5 +32,9 @@ def run(ctx):
                 "primitives only from gc / try_remove_node / level views, gated by reorder_gc_prepared / "
                 "allow_node_removal; level_swap uses the unchecked insertions only.")
     ewho.run(ctx, F)
+    ctx.explain("E-RAW: the open-addressing table behind every level's unique table keeps its probe chains intact "
+                "(free-slot accounting, tombstones, retain's wrap-around flag): a cut chain makes a stored node "
+                "unfindable, after which a second node with identical children is created on the same level.")
+    eraw.run(ctx, F)
     ctx.not_decided = ("uniqueness/reducedness of the stored graph after arbitrary histories; minimal node counts; "
                        "the then-edge regularity of complement-edge nodes (planned tag-lattice rule)")
